@@ -1503,7 +1503,8 @@ class CircuitIR(AbstractBaseIR):
 
                     # if multiple inputs to variable, sum them up
                     if len(in_ops_col) > 1:
-                        in_ops[var_name] = self._map_multiple_inputs(in_ops_col, scope=scope)
+                        reserved = {key for key in op_args if key not in ('inputs', var_name)}
+                        in_ops[var_name] = self._map_multiple_inputs(in_ops_col, scope=scope, reserved=reserved)
                     else:
                         key, _ = in_ops_col.popitem()
                         in_ops[var_name] = (None, {var_name: key})
@@ -1568,7 +1569,7 @@ class CircuitIR(AbstractBaseIR):
         return v
 
     @staticmethod
-    def _map_multiple_inputs(inputs: dict, scope: str) -> tuple:
+    def _map_multiple_inputs(inputs: dict, scope: str, reserved: Optional[set] = None) -> tuple:
         """Creates mapping between multiple input variables and a single output variable.
 
         Parameters
@@ -1601,6 +1602,10 @@ class CircuitIR(AbstractBaseIR):
                 in_var = key.split('/')[-1]
             inp, inputs_unique_tmp = get_unique_label(in_var, inputs_unique)
             inputs_unique.update(inputs_unique_tmp)
+            while reserved and inp in reserved:
+                # the operator declares a variable of that name itself (e.g. `x_v1`): choose another label
+                inp, inputs_unique_tmp = get_unique_label(in_var, inputs_unique)
+                inputs_unique.update(inputs_unique_tmp)
 
             # store input-related information
             new_input_vars.append(inp)
